@@ -12,7 +12,7 @@ const CODES: [&str; 3] = ["incorrect_standard_library_use", "deprecated", "must_
 const ROOTS: [&str; 12] = ["print", "math", "string", "table", "tostring", "pairs", "unpack", "os", "old", "oldv", "depp", "require"];
 
 /// (text with NAME and BODY placeholders, whether BODY is inside the scope)
-const BINDINGS: [(&str, &str); 9] = [
+const BINDINGS: [(&str, &str); 14] = [
     ("local NAME = {}\nBODY", "local"),
     ("local NAME\nBODY", "local-novalue"),
     ("local a, NAME = 1, 2\nBODY", "local-multi"),
@@ -22,6 +22,12 @@ const BINDINGS: [(&str, &str); 9] = [
     ("for NAME = 1, 2 do\nBODY\nend\n", "numeric-for"),
     ("for NAME in next, {} do\nBODY\nend\n", "generic-for"),
     ("for _, NAME in next, {} do\nBODY\nend\n", "generic-for-2"),
+    // a global of that name defined by the script itself, in the scope where it is defined
+    ("NAME = {}\nBODY", "global-assign"),
+    ("function NAME(...) return ... end\nBODY", "global-function"),
+    ("NAME, y9 = {}, 1\nBODY", "global-multi-first"),
+    ("y9, NAME = 1, {}\nBODY", "global-multi-last"),
+    ("local function w1()\nNAME = {}\nend\nlocal function w2()\nNAME = {}\nBODY\nend\n", "global-assign-sibling-scopes"),
 ];
 
 const USES: [(&str, &str); 28] = [
